@@ -516,6 +516,17 @@ func (j *judge) checkEndpoints(a aApp, doc map[string]interface{}, refPrefix str
 				sch = asMap(asMap(asMap(rv)["content"])["application/json"])["schema"]
 			} else {
 				sch = asMap(rv)["schema"]
+				// the Swagger exporter reads a bare `return error` as "200 <: error": it then owns the 200 response
+				bare := false
+				for _, o := range ep.Rets {
+					if o.T == nil && (o.Name == "ok" || o.Name == "error") && asStr(asMap(sch)["$ref"]) == refPrefix+o.Name {
+						bare = true
+					}
+				}
+				if bare {
+					j.fail("bare-status-as-type", "%s: response %s refers to %v: a `return ok|error` without payload was exported as a type reference", where, code, asMap(sch)["$ref"])
+					continue
+				}
 			}
 			j.checkType(*r.T, sch, refPrefix, "response", where+" -> "+code)
 		}
